@@ -1102,7 +1102,11 @@ func (u *Unit) loopSpec(n ast.Node) (*LoopSpec, int) {
 }
 
 func (u *Unit) invEnv(st *State, pos token.Pos) *specEnv {
-	env := &specEnv{u: u, st: st, old: u.root().entry, vars: map[string]Val{}, pkg: u.pkg.Types, pos: pos}
+	oldSt := st.old
+	if oldSt == nil {
+		oldSt = u.root().entry
+	}
+	env := &specEnv{u: u, st: st, old: oldSt, vars: map[string]Val{}, pkg: u.pkg.Types, pos: pos}
 	if u.root().specEnv0 != nil {
 		for k, v := range u.root().specEnv0.vars {
 			env.vars[k] = v
